@@ -406,17 +406,29 @@ fn generate_close_value_impl_for_enum(
             }
             Some(VariantData::Struct(fields)) => {
                 // Struct variant: Enum::Variant { fields } => Entry::Variant { closed_fields }
-                let field_names: Vec<_> = fields.iter().map(|f| &f.ident).collect();
-                let closed_fields: Vec<_> = fields
-                    .iter()
+                // ignored fields are not part of the entry variant: do not bind or close them
+                let non_ignored = || {
+                    fields
+                        .iter()
+                        .filter(|f| !matches!(f.attrs.kind, MetricsFieldKind::Ignore(_)))
+                };
+                let has_ignored = non_ignored().count() != fields.len();
+                let field_names: Vec<_> = non_ignored().map(|f| &f.ident).collect();
+                let closed_fields: Vec<_> = non_ignored()
                     .map(|f| {
                         let ident: &Ts2 = &f.ident;
                         f.close_field_expr(quote::quote_spanned! {f.span=> #ident })
                     })
                     .collect();
-                quote::quote_spanned!(variant.ident.span()=>
-                    #enum_name::#variant_ident { #(#field_names),* } => #entry_name::#variant_ident { #(#closed_fields),* }
-                )
+                if has_ignored {
+                    quote::quote_spanned!(variant.ident.span()=>
+                        #enum_name::#variant_ident { #(#field_names,)* .. } => #entry_name::#variant_ident { #(#closed_fields),* }
+                    )
+                } else {
+                    quote::quote_spanned!(variant.ident.span()=>
+                        #enum_name::#variant_ident { #(#field_names),* } => #entry_name::#variant_ident { #(#closed_fields),* }
+                    )
+                }
             }
         }
     });
